@@ -219,7 +219,8 @@ def strip_rust_comments(s):
 
 def source_switches():
     """Which variant of the model corresponds to /repo's current source (the model's quirk switches)."""
-    sw = {"fixedRange": False, "fixedZadd": False, "fixedZincr": False, "extraction_failed": []}
+    sw = {"fixedRange": False, "fixedZadd": False, "fixedZincr": False, "fixedOpt": False, "fixedBounds": False, "fixedPop": False,
+          "oneCallOneLock": False, "extraction_failed": []}
     try:
         eng = strip_rust_comments(open(os.path.join(REPO, "src", "storage", "engine.rs"), errors="replace").read())
         net = strip_rust_comments(open(os.path.join(REPO, "src", "network", "server.rs"), errors="replace").read())
@@ -237,6 +238,34 @@ def source_switches():
         sw["extraction_failed"].append("handle_zadd not found")
     else:
         sw["fixedZadd"] = "is_nan()" in za[:za.index("storage.zadd")]
+    # d3/d4 (hunt): trailing option of the four range handlers, NaN score bounds, the reply of a pop that pops nothing
+    hb = {n: fn_body(net, n) for n in ("handle_zrange", "handle_zrevrange", "handle_zrangebyscore", "handle_zrevrangebyscore", "handle_zcount",
+                                       "handle_zpopmin", "handle_zpopmax")}
+    if any(v is None for v in hb.values()):
+        sw["extraction_failed"].append("range / pop handlers not found: %s" % [n for n, v in hb.items() if v is None])
+    else:
+        opt = [bool(re.search(r"parts\.len\(\)\s*==\s*5\s*&&\s*!\s*with_scores", hb[n])) for n in ("handle_zrange", "handle_zrevrange", "handle_zrangebyscore", "handle_zrevrangebyscore")]
+        bnd = ["is_nan()" in hb[n] for n in ("handle_zrangebyscore", "handle_zrevrangebyscore", "handle_zcount")]
+        pop = ["null_array()" not in hb[n] for n in ("handle_zpopmin", "handle_zpopmax")]
+        for name, vals in (("fixedOpt", opt), ("fixedBounds", bnd), ("fixedPop", pop)):
+            if len(set(vals)) != 1:
+                sw["extraction_failed"].append("%s: the handlers disagree with each other %s" % (name, vals))
+            sw[name] = all(vals)
+    # one storage call per command, one lock scope per storage call (zadd_many / zrem_many / zpop)
+    one = []
+    for hn, call in (("handle_zadd", "storage.zadd_many("), ("handle_zrem", "storage.zrem_many("), ("handle_zpopmin", "storage.zpop("), ("handle_zpopmax", "storage.zpop(")):
+        b = fn_body(net, hn) or ""
+        one.append(b.count(call) == 1 and not re.search(r"storage\.(zadd|zrem|zrange)\(", b))
+    for fn in ("zadd_many", "zrem_many", "zpop"):
+        b = fn_body(eng, fn)
+        if b is None:
+            one.append(False)
+            continue
+        loop = min([b.index(t) for t in ("for ", "while ") if t in b] or [len(b)])
+        one.append(b.count("get_shard(") == 1 and b.count(".write()") == 1 and b.index("get_shard(") < b.index(".write()") < loop)
+    sw["oneCallOneLock"] = all(one)
+    if not all(one):
+        sw["extraction_failed"].append("multi-member commands are not one storage call under one lock scope (handlers / zadd_many, zrem_many, zpop): %s" % one)
     zi = fn_body(net, "handle_zincrby")
     if zi is None or "storage.zincrby" not in zi:
         sw["extraction_failed"].append("handle_zincrby not found")
@@ -246,13 +275,16 @@ def source_switches():
 
 
 # ------------------------------------------------------------------ findings
+ASSUME_FIXED = set(x for x in os.environ.get("C04_ASSUME_FIXED", "").split(",") if x)      # test-only: run against a tree that has a pending fix
+
+
 def load_findings():
-    fs = [f for f in load_known_findings().get("open", []) if f.get("property") == "C04"]
+    fs = [f for f in load_known_findings().get("open", []) if isinstance(f, dict) and f.get("property") == "C04"]
     p = os.path.join(VERIF, "pending_repo_patches", "C04_findings.json")
     if os.path.exists(p):
         have = {f["id"] for f in fs}
         fs += [f for f in json.load(open(p)) if f["id"] not in have]
-    return fs
+    return [f for f in fs if f["id"] not in ASSUME_FIXED]
 
 
 def classify(kind, det, findings):
@@ -268,6 +300,12 @@ def classify(kind, det, findings):
         if m == kind == "zincrby-nan" and det.get("nan"):
             return f
         if m == kind == "zadd-partial" and det.get("spec_reply") == "err" and det.get("impl_reply") == "err":
+            return f
+        if m == kind == "range-unknown-option" and det.get("spec") == "err" and det.get("opt") == "other" and str(det.get("impl", "")).startswith("0/"):
+            return f        # an unknown trailing argument answered as the plain command
+        if m == kind == "nan-score-bound" and det.get("spec") == "err" and det.get("nan_bound") and det.get("impl") != "err":
+            return f
+        if m == kind == "zpop-null-array" and det.get("spec") == "." and det.get("impl") == "null":
             return f
     return None
 
@@ -291,7 +329,7 @@ class C04:
         self.cfg()
 
     def cfg(self):
-        a = self.model.ask("cfg %d %d %d" % (self.sw["fixedRange"], self.sw["fixedZadd"], self.sw["fixedZincr"]))
+        a = self.model.ask("cfg %d %d %d %d %d %d" % tuple(self.sw[k] for k in ("fixedRange", "fixedZadd", "fixedZincr", "fixedOpt", "fixedBounds", "fixedPop")))
         if a != "ok":
             raise InternalError("Lean driver refused cfg: %r" % a)
 
@@ -333,6 +371,28 @@ class C04:
             out.append(("oracle", "score-text", {"op": list(op), "impl": text.decode("ascii", "replace"), "want": self.fmt_score(bits).decode(),
                                                 "where": where, "why": "score text is not the exact rendering of the stored value"}))
         return bits
+
+    def range_reply(self, c, args, opt_hex, out, op):
+        """a range command with its optional trailing argument (hex; "" = absent) -> (`err` | `<withscores 0/1>/<entries>`, option class);
+        without WITHSCORES the members are completed with the scores ZSCORE gives (the order is what is compared)"""
+        opt = unhx(opt_hex) if opt_hex else None
+        oc = "none" if opt is None else ("ws" if opt.upper() == b"WITHSCORES" else "other")
+        r = c.cmd(*(args + ([opt] if opt is not None else [])))
+        if r[0] == "e":
+            return "err", oc
+        if r[0] != "a":
+            return repr(r), oc
+        xs = r[1]
+        if oc == "ws":
+            ws = 1
+            items = ["%s:%s" % (hx(xs[j][1]), key_of_bits(self.score_reply(xs[j + 1][1], args[0] + " WITHSCORES", out, op))) for j in range(0, len(xs) - 1, 2)]
+        else:
+            ws = 0
+            items = []
+            for x in xs:
+                z = c.cmd("ZSCORE", args[1], x[1])
+                items.append("%s:%s" % (hx(x[1]), key_of_bits(bits_of(float(z[1].decode()))) if z[0] == "b" else "?"))
+        return "%d/%s" % (ws, ",".join(items) or "."), oc
 
     def fresh_key(self):
         self.keyno += 1
@@ -518,6 +578,34 @@ class C04:
                 a = self.ask_impl("zs zrem %s %s" % (key, op[1]))
                 post, postc = self.impl_dump(key)
                 b = self.ask_model("zs zrem %s %s" % (key, op[1]))
+            elif name == "zaddmany":
+                pairs = [(m, b) for m, b in op[1]]
+                a = self.ask_impl("zs zaddmany %s %s" % (key, ",".join("%s:%s" % (m, hexbits(b)) for m, b in pairs)))
+                post, postc = self.impl_dump(key)
+                hs = []
+                for j, (m, pb) in enumerate(pairs):
+                    last = all(m2 != m for m2, _ in pairs[j + 1:])
+                    ent = (m, key_of_bits(pb))
+                    hs.append(max(sum(1 for l in post[0] if ent in l) - 1, 0) if (post and last) else 0)
+                h = max(hs) if hs else None
+                b_ = self.ask_model("zs zaddmany %s %s %s" % (key, ",".join(map(str, hs)), ",".join("%s:%s" % (m, key_of_bits(b)) for m, b in pairs)))
+                b = b_
+                if record:
+                    seen = dict(shadow)
+                    for m, bb in pairs:
+                        self.note_classes("zs", key_of_bits(seen[m]) if m in seen else None, bb)
+                        seen[m] = bb
+                    rep.count("class.multi.pairs-%d%s" % (min(len(pairs), 4), "+dup-member" if len(set(m for m, _ in pairs)) < len(pairs) else ""))
+            elif name == "zremmany":
+                a = self.ask_impl("zs zremmany %s %s" % (key, "|".join(op[1])))
+                post, postc = self.impl_dump(key)
+                b = self.ask_model("zs zremmany %s %s" % (key, "|".join(op[1])))
+            elif name == "popn":
+                a = self.ask_impl("zs popn %s %s %d" % (key, op[1], op[2]))
+                post, postc = self.impl_dump(key)
+                b = self.ask_model("zs popn %s %s %d" % (key, op[1], op[2]))
+                if a not in (None, "panic") and not a.startswith("err"):
+                    a = canon_items(a)
             elif name == "pop":
                 a = self.ask_impl("zs pop %s %s" % (key, op[1]))
                 post, postc = self.impl_dump(key)
@@ -646,7 +734,14 @@ class C04:
                     inc = bits_of(2.0)          # inf + -inf would produce NaN: only in NaN histories
                 return ("zincrby", m, inc)
             if k < 16:
-                return ("pop", r.choice(["min", "max"]))
+                q = r.below(4)
+                if q == 0:
+                    return ("pop", r.choice(["min", "max"]))
+                if q == 1:
+                    return ("popn", r.choice(["min", "max"]), r.choice([0, 1, 1, 2, 3, size, size + 1, 100]))
+                if q == 2:
+                    return ("zremmany", [hx(r.choice(members)) for _ in range(r.range(1, 4))])
+                return ("zaddmany", [(hx(r.choice(members)), r.choice(scores)) for _ in range(r.range(1, 5))])
             if k == 16:
                 return ("zscore", m)
             if k in (17, 18):
@@ -750,19 +845,44 @@ class C04:
                     cmdname = "ZPOPMIN" if op[1] == "min" else "ZPOPMAX"
                     r = c.cmd(cmdname, key) if op[2] is None else c.cmd(cmdname, key, str(op[2]))
                     if r[0] == "na":
-                        a = "."
+                        a = "null"
                     elif r[0] == "a":
                         a = ents(r[1], cmdname, op)
                     else:
                         a = repr(r)
                     b = self.ask_model("cmd zpop %s %s %d" % (kx, op[1], 1 if op[2] is None else op[2]))
                 elif name == "ZRANGE":
-                    r = c.cmd("ZREVRANGE" if op[3] else "ZRANGE", key, str(op[1]), str(op[2]), "WITHSCORES")
-                    if r[0] == "a":
-                        a = ents(r[1], "ZRANGE WITHSCORES", op)
-                    else:
-                        a = repr(r)
-                    b = self.ask_model("zs zrange %s %d %d %d" % (kx, op[1], op[2], op[3]))
+                    opt = op[4] if len(op) > 4 else "5749544853434f524553"          # hex of the trailing argument, "" = none
+                    a, oc = self.range_reply(c, ["ZREVRANGE" if op[3] else "ZRANGE", key, str(op[1]), str(op[2])], opt, out, op)
+                    det_extra = {"opt": oc}
+                    b = self.ask_model("cmd zrange %s %d %d %d %s" % (kx, op[1], op[2], op[3], oc))
+                elif name == "ZRBS":
+                    lo_t, hi_t = unhx(op[1]), unhx(op[2])
+                    lo, hi = self.score_of_text(lo_t), self.score_of_text(hi_t)
+                    if lo is None or hi is None:
+                        raise InternalError("generator produced an unparsable score bound")
+                    first, second = (hi_t, lo_t) if op[3] else (lo_t, hi_t)         # ZREVRANGEBYSCORE key max min
+                    a, oc = self.range_reply(c, ["ZREVRANGEBYSCORE" if op[3] else "ZRANGEBYSCORE", key, first, second], op[4], out, op)
+                    det_extra = {"opt": oc, "nan_bound": is_nan_bits(lo) or is_nan_bits(hi)}
+                    b = self.ask_model("cmd zrbs %s %s %s %d %s" % (kx, key_of_bits(lo), key_of_bits(hi), op[3], oc))
+                    if record:
+                        rep.count("class.bounds.%s" % ("nan" if det_extra["nan_bound"] else ("reversed" if score_sort_key(key_of_bits(lo)) > score_sort_key(key_of_bits(hi)) else "ordered")))
+                elif name == "ZCOUNT":
+                    lo_t, hi_t = unhx(op[1]), unhx(op[2])
+                    lo, hi = self.score_of_text(lo_t), self.score_of_text(hi_t)
+                    if lo is None or hi is None:
+                        raise InternalError("generator produced an unparsable score bound")
+                    r = c.cmd("ZCOUNT", key, lo_t, hi_t)
+                    a = str(r[1]) if r[0] == "i" else ("err" if r[0] == "e" else repr(r))
+                    det_extra = {"nan_bound": is_nan_bits(lo) or is_nan_bits(hi)}
+                    b = self.ask_model("cmd zcount %s %s %s" % (kx, key_of_bits(lo), key_of_bits(hi)))
+                    if record:
+                        rep.count("class.bounds.%s" % ("nan" if det_extra["nan_bound"] else "number"))
+                elif name == "ZREM":
+                    ms = [unhx(m) for m in op[1]]
+                    r = c.cmd("ZREM", key, *ms)
+                    a = str(r[1]) if r[0] == "i" else ("err" if r[0] == "e" else repr(r))
+                    b = self.ask_model("cmd zrem %s %s" % (kx, "|".join(op[1])))
                 else:
                     raise InternalError("unknown tcp op %r" % (op,))
                 f = fields(b)
@@ -788,9 +908,18 @@ class C04:
                         out.append(("oracle", "zincrby-nan" if nan else "reply", {"op": op, "impl_reply": a, "spec_reply": f["S"], "impl_set": l0, "spec_set": f["Z"],
                                                                                   "nan": nan and "nan" in l0, "layer": "tcp", "why": "an increment producing NaN must be refused" if nan else "ZINCRBY differs"}))
                         tainted = tainted or "nan" in l0
-                    elif name in ("ZPOP", "ZRANGE") and a != f["S"]:
+                    elif name in ("ZPOP", "ZRANGE", "ZRBS", "ZCOUNT", "ZREM") and a != f["S"]:
                         kind = f["D"] if f["D"] != "-" else "reply"
-                        out.append(("oracle", kind, {"op": op, "impl": a, "spec": f["S"], "dev": f["D"], "layer": "tcp", "why": "%s reply differs from the prescribed one" % name}))
+                        why = "%s reply differs from the prescribed one" % name
+                        if f["S"] == "err" and det_extra.get("nan_bound"):
+                            kind, why = "nan-score-bound", "a NaN score bound must be refused (min or max is not a float)"
+                        elif f["S"] == "err" and det_extra.get("opt") == "other":
+                            kind, why = "range-unknown-option", "an unknown trailing argument must be a syntax error, not ignored"
+                        elif name == "ZPOP" and a == "null":
+                            kind, why = "zpop-null-array", "a pop that pops nothing answers the empty array (the null array is a BZPOP timeout)"
+                        d_ = {"op": op, "impl": a, "spec": f["S"], "dev": f["D"], "layer": "tcp", "why": why}
+                        d_.update(det_extra)
+                        out.append(("oracle", kind, d_))
                     elif l0 != f["Z"] or card != spec_n or ex != int(spec_n > 0):
                         out.append(("oracle", "state", {"op": op, "impl": [l0, card, ex], "spec": [f["Z"], spec_n, int(spec_n > 0)], "layer": "tcp",
                                                         "why": "stored set / ZCARD / key existence differ from the prescribed ones"}))
@@ -849,9 +978,35 @@ class C04:
                 ops.append(("ZINCRBY", hx(t), hx(r.choice(members))))
             elif k < 16:
                 ops.append(("ZPOP", r.choice(["min", "max"]), r.choice([None, None, 0, 1, 2, 3, 100])))
+            elif k < 17:
+                q = r.below(3)
+                bt = [b"1", b"2", b"3", b"0", b"-0", b"-inf", b"inf", b"+inf", b"1.5", b"-1", b"5e-324", b"1e400"]
+                if q == 0:
+                    ops.append(("ZREM", [hx(r.choice(members)) for _ in range(r.range(1, 4))]))
+                else:
+                    lo, hi = r.choice(bt), r.choice(bt)
+                    if r.chance(1, 5):
+                        lo = r.choice(nans)
+                    if r.chance(1, 6):
+                        hi = r.choice(nans)
+                    if q == 1:
+                        ops.append(("ZCOUNT", hx(lo), hx(hi)))
+                    else:
+                        ops.append(("ZRBS", hx(lo), hx(hi), r.below(2), self.gen_opt(r)))
             else:
-                ops.append(("ZRANGE", self.bounds(r, min(size, 5)), self.bounds(r, min(size, 5)), r.below(2)))
+                ops.append(("ZRANGE", self.bounds(r, min(size, 5)), self.bounds(r, min(size, 5)), r.below(2), self.gen_opt(r)))
         return ops
+
+    OPTS = [b"REV", b"BYSCORE", b"BYLEX", b"WITHSCORE", b"LIMIT", b"junk", b"", b"withscores ", b"WITHSCORES\x00", b"--"]
+
+    def gen_opt(self, r):
+        """trailing argument of a range command as hex ("" = absent, "-" = the empty string)"""
+        k = r.below(6)
+        if k < 2:
+            return ""
+        if k < 4:
+            return hx(r.choice([b"WITHSCORES", b"withscores", b"WithScores"]))
+        return hx(r.choice(self.OPTS))
 
     # ---------------- bookkeeping
     def absorb(self, layer, ops, res, tag):
@@ -878,6 +1033,8 @@ CORPUS = {
         (None, [("zadd", hexm("a"), ONE), ("zadd", hexm("b"), ONE), ("zadd", hexm("a"), THREE), ("zrank", hexm("a"), 0), ("zrank", hexm("a"), 1),
                 ("zrange", 0, -1, 0), ("zrange", 0, -1, 1), ("zrange", -2**63, 2**63 - 1, 0), ("zrange", -2**63, 2**63 - 1, 1),
                 ("zrbs", NINF, PINF, 0), ("zrbs", PINF, NINF, 0), ("zcount", ONE, ONE), ("pop", "max"), ("pop", "min"), ("exists",), ("zcard",), ("pop", "min")]),
+        (None, [("zaddmany", [(hexm("a"), ONE), (hexm("b"), TWO), (hexm("a"), THREE), (hexm("c"), bits_of(-0.0))]), ("popn", "max", 2), ("popn", "min", 0), ("zaddmany", [(hexm("c"), bits_of(0.0))]),
+                ("zremmany", [hexm("x"), hexm("b"), hexm("b"), hexm("c")]), ("exists",), ("popn", "min", 3), ("zremmany", [hexm("a")])]),
         (None, [("zadd", hexm("n"), bits_of(-0.0)), ("zadd", hexm("m"), bits_of(0.0)), ("zincrby", hexm("n"), bits_of(0.0)), ("zrbs", bits_of(0.0), bits_of(-0.0), 0),
                 ("zadd", hexm("p"), 0x3FF0000000000001), ("zadd", hexm("q"), ONE), ("zadd", hexm("o"), 0x3FEFFFFFFFFFFFFF), ("zrange", 0, -1, 0)]),
         # NaN handed to the storage functions directly: correspondence only (the refusal is the handlers' duty)
@@ -896,11 +1053,26 @@ CORPUS = {
         ("zrange-clamp", [("ZADD", [(hexm("1"), hexm("a")), (hexm("2"), hexm("b")), (hexm("3"), hexm("c"))]), ("ZRANGE", 0, -100, 0)]),
         ("zrevrange-clamp", [("ZADD", [(hexm("1"), hexm("a")), (hexm("2"), hexm("b")), (hexm("3"), hexm("c"))]), ("ZRANGE", 5, 10, 1)]),
         (None, [("ZADD", [(hexm("1"), hexm("a")), (hexm("1"), hexm("b")), (hexm("2"), hexm("a")), (hexm("-inf"), hexm("c"))]), ("ZPOP", "max", 2), ("ZPOP", "min", None), ("ZPOP", "min", 5), ("ZPOP", "max", None)]),
+        # hunt d3: unknown trailing argument of the range commands, NaN score bounds; d4: a pop that pops nothing
+        ("range-unknown-option", [("ZADD", [(hexm("1"), hexm("a")), (hexm("2"), hexm("b")), (hexm("3"), hexm("c"))]), ("ZRANGE", 0, -1, 0, hexm("REV")),
+                                  ("ZRANGE", 0, -1, 0, hexm("BYSCORE")), ("ZRANGE", 0, -1, 0, hexm("WITHSCORE")), ("ZRANGE", 0, -1, 1, hexm("junk")),
+                                  ("ZRBS", hexm("1"), hexm("3"), 0, hexm("LIMIT")), ("ZRBS", hexm("1"), hexm("3"), 1, hexm("LIMIT")),
+                                  ("ZRANGE", 0, -1, 0, hexm("withscores")), ("ZRANGE", 0, -1, 0, "")]),
+        ("nan-score-bound", [("ZADD", [(hexm("1"), hexm("a")), (hexm("2"), hexm("b")), (hexm("3"), hexm("c"))]), ("ZCOUNT", hexm("nan"), hexm("2")),
+                             ("ZCOUNT", hexm("1"), hexm("nan")), ("ZRBS", hexm("nan"), hexm("nan"), 0, ""), ("ZRBS", hexm("NaN"), hexm("3"), 1, hexm("WITHSCORES")),
+                             ("ZCOUNT", hexm("-inf"), hexm("inf")), ("ZRBS", hexm("3"), hexm("1"), 0, "")]),
+        ("zpop-null-array", [("ZPOP", "min", None), ("ZPOP", "max", None), ("ZPOP", "min", 5), ("ZADD", [(hexm("1"), hexm("a"))]), ("ZPOP", "min", 0), ("ZPOP", "max", 0),
+                             ("ZPOP", "max", 2), ("ZPOP", "max", None)]),
+        (None, [("ZADD", [(hexm("1"), hexm("a")), (hexm("2"), hexm("b")), (hexm("3"), hexm("c"))]), ("ZREM", [hexm("a"), hexm("x"), hexm("a"), hexm("c")]), ("ZREM", [hexm("b"), hexm("b")]), ("ZREM", [hexm("b")])]),
     ],
 }
 
 
 def run_layer(c, server, layer, ops, tag, record=True):
+    if layer == "tcp-probe":
+        n0 = len(c.oracle_failures)
+        one_step_probe(c, server, "thorough")
+        return [("oracle", k, d) for k, d, _, _ in c.oracle_failures[n0:]]
     if layer == "sl":
         return c.run_sl(ops, tag, record)
     if layer == "zs":
@@ -949,6 +1121,38 @@ def explore(c, server, seed, tier):
         rep.traces_validated += 1
         if not server.alive():
             raise InternalError("server died during the TCP layer: " + server.log_tail())
+    one_step_probe(c, server, tier)
+
+
+def one_step_probe(c, server, tier):
+    """An accepted multi-member ZADD against the key's deadline (hunt d1): whatever the timing, afterwards the key holds
+    ALL members of the command (it was dead when the command started: fresh key, no TTL) or NONE (they joined the live key,
+    which expired as a whole).  Both outcomes are accepted, so the verdict does not depend on the clock; only the chance of
+    hitting the window does.  MULTI/EXEC just puts PEXPIRE and ZADD into one write."""
+    rep = c.rep
+    n = 6000
+    args = []
+    for i in range(n):
+        args += [str(i), "m%06d" % i]
+    for ms in ([3, 12, 40] if tier == "quick" else [1, 2, 3, 5, 8, 12, 20, 30, 40, 60, 90]):
+        cl = server.client(timeout=30)
+        try:
+            key = c.fresh_key()
+            cl.cmd("ZADD", key, "-1", "seed")
+            cl.send("MULTI"); cl.send("PEXPIRE", key, str(ms)); cl.send("ZADD", key, *args); cl.send("EXEC")
+            rs = [cl.read_reply() for _ in range(4)]
+            time.sleep(ms / 1000.0 + 0.15)
+            card, pttl = cl.cmd("ZCARD", key), cl.cmd("PTTL", key)
+            rep.evaluations += 1
+            ok = (card == ("i", 0)) or (card == ("i", n) and pttl == ("i", -1))
+            rep.count("tcp.one-step-probe." + ("all" if card == ("i", n) else "none" if card == ("i", 0) else "partial"))
+            rep.nontrivial(("tcp", "one-step-probe", card[1] if card[0] == "i" and card[1] in (0, n) else "partial"))
+            if rs[3][0] != "a" or not ok:
+                c.oracle_failures.append(("zadd-not-one-step", {"layer": "tcp", "why": "an accepted multi-member ZADD was applied partly to the expiring key and partly to a new one",
+                                                               "script": ["ZADD k -1 seed", "MULTI", "PEXPIRE k %d" % ms, "ZADD k <%d pairs i m%%06d>" % n, "EXEC", "(wait)", "ZCARD k", "PTTL k"],
+                                                               "exec_reply": repr(rs[3])[:200], "zcard": card, "pttl": pttl}, "tcp-probe", [("probe", ms, n)]))
+        finally:
+            cl.close()
 
 
 def minimise(c, server, layer, ops, kind):
@@ -982,6 +1186,12 @@ def main(tier, seed):
     ]
     sw = source_switches()
     rep.extra["model_switches"] = {k: v for k, v in sw.items()}
+    rep.extra["level_note"] = ("A multi-member ZADD / ZREM / ZPOPMIN / ZPOPMAX is ONE step of the sorted-set machine (theorems zadd_is_one_step, zrem_zpop_one_step): "
+                               "this rests on the lock scope read from the source, not on a proof about the Rust locks - Gen.zsetOneCall (translator/expiry_tables.py: "
+                               "each handler and the script executor make exactly one storage call) and lib/c04.py source_switches oneCallOneLock (zadd_many / zrem_many / "
+                               "zpop reach the shard once and take its write lock once, before their loop). Under that reading no deadline test and no other reader "
+                               "(BGSAVE copy, another connection) falls between two members of one command; the TCP probe (MULTI; PEXPIRE; ZADD <6000 pairs>; EXEC) only samples it.")
+    rep.assumptions.append("one storage call = one lock scope = one deadline test is READ from the source (Gen.zsetOneCall, source_switches.oneCallOneLock), see level_note")
     ok, log, errs = proof_phase(rep, families=[FAM])
     rep.trusted_base.append("lib/c04.py source_switches(): three anchored patterns over StorageEngine::zrange, handle_zadd and handle_zincrby select the "
                             "model variant (fixedRange/fixedZadd/fixedZincr); a wrong selection shows up as a correspondence break")
